@@ -429,6 +429,10 @@ func (c *c25) partIter(pi int) {
 					c.vio(id, map[string]any{"kind": "iter-differs", "range": rng, "prefix": c25prefixClass(p), "view": "open"},
 						fmt.Sprintf("Iter(prefix %x, start %s, limit %s, asc %v) saw %s; the model's view is %s", p, c25x(start), c25x(limit), asc, c25kvs(got), c25kvs(want)), rp)
 				default:
+					if start != nil && limit != nil && len(got) > 1 {
+						r.Sample(map[string]any{"op": "Iter", "prefix": fmt.Sprintf("%x", p), "start": c25x(start), "limit": c25x(limit), "asc": asc, "saw": c25kvs(got)})
+					}
+
 					r.Outcome(fmt.Sprintf("iter:ok:%d-keys", min(len(got), 3)))
 				}
 			}
@@ -542,6 +546,10 @@ func (c *c25) brmCase(id string, base c25model, start, limit *string, batchLimit
 		c.vio(id, map[string]any{"kind": "count-differs", "op": "BatchRemove", "range": sigRange, "batch_fills_exactly": exact},
 			fmt.Sprintf("BatchRemove([%s,%s), batch limit %d) returned %d, %d keys were in the range", c25x(start), c25x(limit), batchLimit, n, wantN), rp)
 	default:
+		if exact {
+			r.Sample(map[string]any{"op": "BatchRemove", "start": c25x(start), "limit": c25x(limit), "batch_limit": batchLimit, "removed": n, "keys_before": len(base)})
+		}
+
 		r.Outcome(fmt.Sprintf("brm:ok:removed-%s:exact-fill=%v", c25nclass(wantN), exact))
 	}
 }
@@ -997,6 +1005,10 @@ func (b *c25bfs) search(first int, depth int) {
 
 			last := b.events[nd.hist[len(nd.hist)-1]]
 			r.Outcome("bfs:" + last.kind + map[bool]string{true: ":view-closed", false: ""}[w.closed[last.view] && c25viewOp(last.kind)])
+
+			if len(nd.hist) >= 2 {
+				r.Sample(map[string]any{"op": "history", "views": b.pairName, "events": names, "storage_after": w.m.canon(), "closed": w.closed})
+			}
 
 			k := w.key()
 			if seen[k] {
